@@ -164,7 +164,13 @@ def ring_dir(r):
 @check(('C15', 'C17'), 'array.oriented')
 def c_oriented(rng):
     kind = rng.choice(['polygon', 'multipolygon'])
-    cs = gen.case(kind, rng, p_empty=0.15)
+    if rng.random() < 0.5:
+        # a slice that starts after the first element: non-zero array offset, buffers shared with the parent
+        els = gen.elements(kind, rng, n=rng.choice([2, 3, 4, 5]), p_empty=0.1)
+        a = rng.randint(1, len(els) - 1)
+        cs = gen.Case(kind, els, [['slice', a, rng.randint(a, len(els)), None]])
+    else:
+        cs = gen.case(kind, rng, p_empty=0.15)
     before = pickle.dumps(cs.arr.data.to_pylist())
     out = []
     try:
@@ -473,4 +479,65 @@ def c_rtree(rng):
                        [max(r[d + k] for r in fin) if fin else nan for k in range(d)])
         if not all(nan_eq(a, b) for a, b in zip(t.total_bounds, exp_tb)):
             out.append(V(f'rtree.total_bounds/{tag}', f'got {t.total_bounds} expected {exp_tb}', recipe))
+    return out
+
+
+def hilbert_xy2d(p, x, y):
+    """classical 2-d Hilbert curve index (independent reference implementation)"""
+    n = 1 << p
+    d = 0
+    s = n >> 1
+    while s > 0:
+        rx = 1 if (x & s) else 0
+        ry = 1 if (y & s) else 0
+        d += s * s * ((3 * rx) ^ ry)
+        if ry == 0:
+            if rx == 1:
+                x = n - 1 - x
+                y = n - 1 - y
+            x, y = y, x
+        s >>= 1
+    return d
+
+
+@check(('C08', 'C07'), 'array.hilbert_distance-reference-cell')
+def c_hilbert_reference(rng):
+    """value check where the scaling is exact: extent a power of two (or degenerate, widened by one)"""
+    from fractions import Fraction as Fr
+    kind = rng.choice(gen.KINDS)
+    cs = gen.case(kind, rng, p_missing=0.1, p_empty=0.0)
+    if not len(cs.view):
+        return []
+    p = rng.choice([1, 2, 3, 4, 6])
+    x0, y0 = float(rng.randint(-8, 0)), float(rng.randint(-8, 0))
+    w = rng.choice([0.0, 8.0, 16.0, 32.0])
+    h = rng.choice([0.0, 8.0, 16.0, 32.0])
+    tb = (x0, y0, x0 + w, y0 + h)
+    variant = rng.choice(['tuple', 'list', 'array'])
+    arg = {'tuple': tuple(tb), 'list': list(tb), 'array': np.array(tb)}[variant]
+    recipe = dict(cs.recipe, total_bounds=list(tb), p=p, variant=variant)
+    try:
+        d = cs.arr.hilbert_distance(total_bounds=arg, p=p)
+    except Exception as e:
+        return [V(f'array.hilbert_distance-reference/raises-{type(e).__name__}/{"degenerate" if 0.0 in (w, h) else "regular"}', f'{e}', recipe)]
+    side = 1 << p
+    ew, eh = (w if w else 1.0), (h if h else 1.0)
+    out = []
+    for i, el in enumerate(cs.view):
+        if el is None:
+            continue
+        b = oracle.bounds(kind, el)
+        if any(math.isnan(v) for v in b):
+            continue
+        mx, my = (Fr(b[0]) + Fr(b[2])) / 2, (Fr(b[1]) + Fr(b[3])) / 2
+        cx = int(math.floor((mx - Fr(x0)) * side / Fr(ew))) if (mx - Fr(x0)) >= 0 else -1
+        cy = int(math.floor((my - Fr(y0)) * side / Fr(eh))) if (my - Fr(y0)) >= 0 else -1
+        # truncation toward zero then clamp: negative products clamp to 0
+        cx = min(max(cx, 0), side - 1)
+        cy = min(max(cy, 0), side - 1)
+        exp = hilbert_xy2d(p, cx, cy)
+        if int(d[i]) != exp:
+            shape = 'zero-height' if h == 0 and w != 0 else 'zero-width' if w == 0 and h != 0 else 'point-extent' if w == 0 else 'regular'
+            out.append(V(f'array.hilbert_distance-reference/cell/{shape}', f'row {i} bounds {b} tb {tb} p {p}: got {int(d[i])} expected {exp} (cell {cx},{cy})', recipe))
+            break
     return out
